@@ -134,7 +134,8 @@ def gen_invalid(draw):
         term = ["str", draw(st.sampled_from(["abc", "", "1,5", "1.2.3", "--1", "1/0", "1 2"]))]
     elif why == "mult_garbage":
         mult = ["str", draw(st.sampled_from(["abc", "", "1,5", "ten"]))]
-    return {"k": "invalid", "why": why, "cs": cs, "mult": mult, "term": term}
+    return {"k": "invalid", "why": why, "cs": cs, "mult": mult, "term": term,
+            "codes": draw(st.sampled_from([[False, False], [True, False], [False, True], [True, True]]))}
 
 
 @st.composite
@@ -266,7 +267,7 @@ def run_case(case, ctx):
             elif case["why"] == "cur_type":
                 r = ExchangeRate(_cur(case["cs"][0]), _num(case["mult"]), 42, _num(case["term"]))
             else:
-                _, _, r = _build(case)
+                _, _, r = _build(case, case.get("codes", (False, False)))
         except (ValueError, TypeError, OverflowError, ArithmeticError):
             return
         except Exception as exc:  # noqa: BLE001
